@@ -1,4 +1,5 @@
 import MlModel.Lemmas.RetrievalBatch
+import MlModel.Lemmas.RetrievalThrSpec
 /-!
 # C07, metric family "retrieval": metric values equal their mathematical definitions
 
@@ -103,6 +104,72 @@ theorem C07_retrieval_hits_le (T P : List α) (k : Nat) : hits T P k ≤ retriev
   calc ((P.take k).filter (· ∈ T)).length ≤ (P.take k).length := List.length_filter_le _ _
     _ = min k P.length := List.length_take
 
+
+/-! ### ThresholdedRetrieval: pooled precision / recall / F1 per probability threshold -/
+
+open MlModel.Spec.Retrieval.Thr in
+/-- the counts one `add()` pools — matched predictions, matched labels, labels, predictions above
+each threshold, computed through `retrieval_matcher` — are the textbook counts, for every batch of
+documented inputs (one probability `≥ 0` per prediction, distinct predictions, distinct labels)
+and all thresholds `≥ 0` -/
+theorem C07_retrieval_thresholded_counts (ts : List Rat) (hts : ∀ t ∈ ts, 0 ≤ t)
+    (rows : List (Thr.Row α)) (hrows : ∀ r ∈ rows, RowOk r) :
+    Thr.batchCounts ts rows = .ok
+      { tpTrues := ts.map fun t => sumOver rows (trueTP · t)
+        tpPreds := ts.map fun t => sumOver rows (predTP · t)
+        pTrues := sumOver rows (·.yTrue.length)
+        pPreds := ts.map fun t => sumOver rows (predPos · t) } :=
+  Thr.batchCounts_spec ts hts rows hrows
+
+open MlModel.Spec.Retrieval.Thr in
+/-- … hence `result()` reports, per threshold, the textbook pooled precision, recall and F1
+(`safe_divide`: 0 for an empty denominator) -/
+theorem C07_retrieval_thresholded_rates (ts : List Rat) (hts : ∀ t ∈ ts, 0 ≤ t)
+    (rows : List (Thr.Row α)) (hrows : ∀ r ∈ rows, RowOk r) :
+    (Thr.ofBatch ts rows).precision = ts.map (Spec.Retrieval.Thr.precision rows) ∧
+    (Thr.ofBatch ts rows).recall = ts.map (Spec.Retrieval.Thr.recall rows) ∧
+    (Thr.ofBatch ts rows).f1 = ts.map (Spec.Retrieval.Thr.f1 rows) := by
+  have hp : (Thr.ofBatch ts rows).precision = ts.map (Spec.Retrieval.Thr.precision rows) := by
+    simp only [Thr.ofBatch, Thr.batchCounts_spec ts hts rows hrows, Thr.Counts.precision,
+      List.zipWith_map, List.zipWith_self]
+    apply List.map_congr_left
+    intro t _
+    simp only [Spec.Retrieval.Thr.precision]
+  have hr : (Thr.ofBatch ts rows).recall = ts.map (Spec.Retrieval.Thr.recall rows) := by
+    simp only [Thr.ofBatch, Thr.batchCounts_spec ts hts rows hrows, Thr.Counts.recall, List.map_map]
+    apply List.map_congr_left
+    intro t _
+    simp only [Function.comp, Spec.Retrieval.Thr.recall]
+  refine ⟨hp, hr, ?_⟩
+  simp only [Thr.Counts.f1, hp, hr, List.zipWith_map, List.zipWith_self]
+  apply List.map_congr_left
+  intro t _
+  simp only [Spec.Retrieval.Thr.f1]
+
+/-! ### MeanState (aggregates/utils.py) -/
+
+/-- the mean of finite numbers: `sum / count`, and `0.0` for no input (`safe_divide`) -/
+theorem C07_retrieval_mean (ys : List Rat) :
+    Mean.result (Mean.new (ys.map some)) =
+      some (if ys.length = 0 then 0 else ys.foldl (· + ·) 0 / (ys.length : Rat)) := by
+  simp only [Mean.result, Mean.new, foldl_qadd_some, List.length_map, Q.safeDiv, Q.ofNat, Q.div,
+    Rat.natCast_eq_zero_iff]
+  by_cases h : ys.length = 0 <;> simp [h]
+
+/-- `MeanState.__call__` (one-shot) = accumulator (`add` on a fresh state, then `result`) -/
+theorem C07_retrieval_mean_call (xs : List Q) :
+    Mean.result (Mean.merge Mean.empty (Mean.new xs)) = Mean.result (Mean.new xs) := by
+  rw [Mean.empty_merge]
+
+/-- `TupleMeanState`: one independent mean per column -/
+theorem C07_retrieval_tuplemean (cols : List (List Rat)) :
+    TupleMean.result (TupleMean.new (cols.map fun ys => ys.map some)) =
+      cols.map fun ys => some (if ys.length = 0 then 0 else ys.foldl (· + ·) 0 / (ys.length : Rat)) := by
+  simp only [TupleMean.result, TupleMean.new, List.map_map]
+  apply List.map_congr_left
+  intro ys _
+  exact C07_retrieval_mean ys
+
 /-! ### non-vacuity / regression examples (tests, `decide`d on concrete data) -/
 
 /-- the batch of DESIGN §7-F4: a one-item and a three-item ranking, `k_list=[1,2,3]` -/
@@ -110,6 +177,9 @@ def exCfg : Config := { kList := some [1, 2, 3], metrics := [.precision, .meanAv
 def exRows : List (Row Nat) := [⟨[1], [1]⟩, ⟨[1, 2, 3], [3, 4, 1]⟩]
 
 example : exCfg.KsPos := by decide
+/-- a documented thresholded input -/
+example : Spec.Retrieval.Thr.RowOk (⟨[1, 2, 3], [1, 4, 2], some [3/4, 1/2, 3/8]⟩ : Thr.Row Nat) :=
+  ⟨by decide, by decide +kernel, by decide, by decide⟩
 example : resultState (ofBatch exCfg exRows) =
     [.mean [V.ofQ (some 2), V.ofQ (some (3/2)), V.ofQ (some (5/3))] 2,
      .mean [V.ofQ (some 2), V.ofQ (some (3/2)), V.ofQ (some (14/9))] 2,
